@@ -357,6 +357,21 @@ def build_valid():
     p.rr(1, [0], T_NS, rd_name([b"b", b"a", 0]))
     reg(p, 'valid', 'nocomp')
 
+    p = Pk("r_nocomp_soa2", desc="pointer-free response: SOA whose mname gets shortened and whose rname introduces a new suffix that a later owner reuses")
+    p.question([b"zz", b"yy", 0])
+    p.rr(2, [b"zz", b"yy", 0], T_SOA, rd_soa([b"ns", b"zz", b"yy", 0], [b"adm", b"pp", b"qq", 0]))
+    p.rr(3, [b"pp", b"qq", 0], T_A, rd_a)
+    p.rr(3, [b"w", b"pp", b"qq", 0], T_AAAA, rd_aaaa)
+    reg(p, 'valid', 'nocomp')
+
+    p = Pk("r_nocomp_punct", desc="pointer-free response: names that differ only in bit 5 of a non-letter ('[' vs '{', '@' vs '`', '^' vs '~') must not be merged")
+    p.question([b"a[b", b"cc", 0])
+    p.rr(1, [b"a{b", b"cc", 0], T_CNAME, rd_name([b"x@", b"cc", 0]))
+    p.rr(1, [b"x`", b"cc", 0], T_A, rd_a)
+    p.rr(3, [b"^q", b"a[b", b"cc", 0], T_A, rd_a)
+    p.rr(3, [b"~q", b"a[b", b"cc", 0], T_A, rd_a)
+    reg(p, 'valid', 'nocomp')
+
     p = Pk("r_nocomp_dname", desc="pointer-free response: DNAME (never compressed), TXT, private type, PTR")
     p.question([b"dd", b"ee", 0])
     p.rr(1, [b"dd", b"ee", 0], T_DNAME, rd_name([b"dd", b"ee", 0]))
@@ -463,6 +478,13 @@ def build_hostile():
         lambda p: (p.set16(optr['name_end'] + 8, optr['rdlen'] + 3), p.any(3)))
     dmg('r_ns_add_optlast', 'h_opt_name', 'OPT owner is not the root (one-letter label)',
         lambda p: (p.cells.insert(optr['start'], ('c', 1)), p.cells.insert(optr['start'] + 1, ('lab',)), p.cells.insert(optr['start'] + 2, ('c', 0)), p.cells.pop(optr['start'] + 3)))
+    # OPT data length overstated by k bytes (the data simply is not there)
+    for base, tag in (('q_opt0', 'opt'), ('q_opt2', 'opt2')):
+        ob = byname[base]
+        orr = ob.recs[1]
+        for k in ((1, 10, 11) if base == 'q_opt0' else (4,)):
+            dmg(base, 'h_%s_rdlen_plus%d' % (tag, k), 'OPT RDLENGTH overstated by %d: the packet ends before the announced OPT data' % k,
+                lambda p, orr=orr, k=k: p.set16(orr['name_end'] + 8, orr['rdlen'] + k))
     b2 = byname['r_optmid']
     last = b2.recs[3]
     def two_opts(p):
@@ -623,6 +645,7 @@ def build_rename_cases():
     b = concrete_bytes(pk)
     q = expand_name(b, 12)
     case("r_name255_via_ptr_overflow", 'r_name255_via_ptr', wire(q[-1:]), wire([q[-1] + b"xx"]), True, 'thorough', "suffix rename that makes a 255-byte name 257 bytes long: must fail")
+    case("r_name255_via_ptr_256", 'r_name255_via_ptr', wire(q[-1:]), wire([q[-1] + b"x"]), True, 'thorough', "suffix rename that makes a 255-byte name exactly 256 bytes long: must fail")
     case("r_name255_via_ptr_fits", 'r_name255_via_ptr', wire(q[-1:]), wire([q[-1][:-1]]), True, 'thorough', "suffix rename that shortens maximal names by one byte")
 
 
@@ -701,13 +724,46 @@ def families():
     quick_parse = {'q_plain', 'q_opt2', 'q_hdrptr', 'r_a_aaaa', 'r_cname_chain', 'r_optmid', 'r_mx_soa', 'r_dname_txt_priv',
                    'h_selfptr', 'h_ptr_root', 'h_trailing', 'h_count_plus', 'h_a_rdlen5', 'h_trunc_rrhdr', 'h_ctrl_char',
                    'h_cycle2', 'h_mx_rdlen2', 'h_soa_short', 'h_dname_ptr', 'h_opt_overrun', 'h_two_opts', 'h_opt_in_authority',
-                   'h_query_with_answers', 'h_qd2', 'v_dname_ctrl'}
+                   'h_query_with_answers', 'h_qd2', 'v_dname_ctrl', 'r_chain16', 'h_chain17', 'h_opt_rdlen_plus1', 'h_opt_rdlen_plus10',
+                   'h_opt2_rdlen_plus4'}
     for p in SK:
         long = 'long' in p.tags
         tier = 'quick' if p.name in quick_parse else ('thorough' if long else 'rotate')
+        if 'chain16' in p.tags and p.name not in quick_parse:
+            tier = 'rotate'
         add("parse", "p_parse::parse_verdict", p, ["C01", "C02", "C18"], tier, 40 if not long else 200, 900 if not long else 2400,
             "DNSSector::parse on one skeleton x all values of its symbolic non-label bytes (label characters concrete, error paths explored)",
             ["DNSSector::parse", "DNSSector::parse_rr", "DNSSector::parse_opt", "Compress::check_compressed_name", "DNSSector::check_uncompressed_name"])
+    # one structural byte symbolic (all 256 values): positions chosen per skeleton
+    def symbytes(pk):
+        out = []
+        q = pk.recs[0]
+        out.append((12, 'first label length of the question'))
+        out.append((q['name_end'] - 1, 'root label of the question name'))
+        out.append((q['name_end'] + 3, 'low byte of the question class'))
+        out.append((5, 'low byte of qdcount'))
+        out.append((7, 'low byte of ancount'))
+        out.append((11, 'low byte of arcount'))
+        for i, r in enumerate(pk.recs[1:], 1):
+            if pk.cells[r['start']][0] == 'c' and pk.cells[r['start']][1] >= 0xc0:
+                out.append((r['start'] + 1, 'low byte of the owner pointer of record %d' % i))
+            elif pk.cells[r['start']][0] == 'c' and pk.cells[r['start']][1] != 0:
+                out.append((r['start'], 'first label length of the owner of record %d' % i))
+            out.append((r['name_end'] + 1, 'low byte of the type of record %d' % i))
+            out.append((r['name_end'] + 9, 'low byte of the data length of record %d' % i))
+        if pk.opt and pk.opt[2]:
+            o = pk.opt[2][0]
+            out.append((o[0] + 3, 'low byte of the first option length'))
+        return out
+    for skn, tq in (('q_opt2', 2), ('r_a_aaaa', 3), ('r_cname_chain', 2), ('r_mx_soa', 2), ('r_optmid', 2)):
+        pk = byname[skn]
+        for k, (pos, what) in enumerate(symbytes(pk)):
+            fam.append(dict(name="symb_%s_%d" % (skn, pos), body="p_parse::parse_symbyte::<_, skel_gen::%s, %d>" % (camel(skn), pos),
+                            props=["C01", "C02", "C18"], tier='rotate', est=200, timeout=1500, mem_gb=24,
+                            bound="DNSSector::parse vs the policy oracle with byte %d (%s) taking all 256 values | skeleton %s (%d bytes): %s; label characters concrete, other payload symbolic, error paths explored" % (pos, what, pk.name, len(pk.cells), pk.desc),
+                            funcs=["DNSSector::parse", "DNSSector::parse_rr", "DNSSector::parse_opt", "Compress::check_compressed_name", "DNSSector::check_uncompressed_name"],
+                            unwind=len(pk.cells) + 12, fs=max(300, len(pk.cells) + 40)))
+
     quick_walk = {'q_opt2', 'q_hdrptr', 'r_cname_chain', 'r_ns_add_optlast', 'r_optfirst', 'r_optmid', 'r_mx_soa', 'r_dname_txt_priv', 'r_ptr_ptr'}
     for p in SK:
         if not p.accept or 'edge' in p.tags:
@@ -815,7 +871,7 @@ def families():
         mut("del_%s_%s%d" % (sk, SECN[sec], idx), "p_mutate::delete::<_, skel_gen::%s, %d, %d>" % (camel(sk), sec, idx), sk, ["C08", "C09", "C11"], tier,
             "delete record %d of section %s, delete again through the tombstone (void record, no change), advance: only that record and its count go; view == fresh parse" % (idx, SECN[sec]))
     for sk, sec, tier in (('r_a_aaaa', 1, 'quick'), ('r_a_aaaa', 2, 'rotate'), ('r_a_aaaa', 3, 'rotate'), ('r_all_sections', 1, 'rotate'), ('r_all_sections', 2, 'quick'),
-                          ('r_all_sections', 3, 'rotate'), ('r_optmid', 2, 'quick'), ('q_opt2', 3, 'rotate'), ('r_nocomp', 1, 'rotate')):
+                          ('r_all_sections', 3, 'rotate'), ('r_optmid', 2, 'quick'), ('r_optmid', 1, 'quick'), ('q_opt2', 3, 'rotate'), ('r_nocomp', 1, 'rotate')):
         mut("ins_%s_%s" % (sk, SECN[sec]), "p_mutate::insert::<_, skel_gen::%s, %d>" % (camel(sk), sec), sk, ["C08", "C09"], tier,
             "insert_rr(A record, any TTL and address) into section %s: appended at the end of the section, nothing else changes; view == fresh parse" % SECN[sec])
     mut("ins_second_question_r_a_aaaa", "p_mutate::insert::<_, skel_gen::SkRAAaaa, 0>", 'r_a_aaaa', ["C10"], 'quick',
@@ -850,7 +906,7 @@ def families():
         'name_short_r_all_sections_ar0', 'name_long_r_a_aaaa_an0', 'name_long_r_optmid_ar0', 'name_short_r_a_aaaa_q0', 'name_equal_r_three_a_an1',
         'namebad_label64_r_a_aaaa_an0', 'namebad_pointer_r_a_aaaa_an0', 'namebad_dot_r_a_aaaa_an0', 'namebad_ctrl1f_r_a_aaaa_an0',
         'del_r_a_aaaa_an0', 'del_r_optmid_ar0', 'del_r_all_sections_an0',
-        'ins_r_a_aaaa_an', 'ins_r_all_sections_ns', 'ins_second_question_r_a_aaaa',
+        'ins_r_a_aaaa_an', 'ins_r_all_sections_ns', 'ins_r_optmid_an', 'ins_second_question_r_a_aaaa',
         'cacheq_q_plain', 'itunc_r_a_aaaa_an1', 'hdrops_r_all_sections', 'recompute_r_all_sections', 'renobj_r_a_aaaa',
         'delwalk_r_three_a_an_m5', 'delwalk_r_optmid_ar_m1', 'delwalk_r_a_aaaa_an_m3',
     }
